@@ -145,6 +145,31 @@ theorem rejection_is_an_error (c code : Code) (h : consistent (some (.rejected c
   simp [consistent] at h
   exact ⟨fun h0 => h.2 (h.1 ▸ h0), h.1⟩
 
+/-- **result_stored_before_done** — the model's `complete` makes the batch's final result and its completion visible in
+one step (`done := some code`); in the source as it stands `(*writeBatch).complete` stores the error before it closes
+the done channel, so a caller woken by the channel reads the final error (regenerated on every run). -/
+theorem result_stored_before_done : Gen.completeStoresErrFirst = true := by decide
+
+/-- **delivered_ack_is_success** — an attempt whose acknowledgement reached the client ends without error, and the
+batch is not attempted again: the sender goes on to complete it with nil.  (What the broker applied and acknowledged
+but the client did NOT get is `lost`; over the real Transport the run distinguishes the two by whether the broker's
+answer was read completely — at every Produce version the broker offers, with answers encoded independently of the
+library's encoder.) -/
+theorem delivered_ack_is_success (cfg : Cfg) (s s' : State) (pw b k : Nat) (code : Code) (P : PW)
+    (hP : s.pws pw = some P) (hsend : P.sender = .attempting b k (some .acked))
+    (hs : step cfg s (.attemptDone pw b k code) = some s') :
+    code = 0 ∧ ∃ P', s'.pws pw = some P' ∧ P'.sender = .finishing b 0 false := by
+  simp only [step, hP, hsend] at hs
+  split at hs
+  · rename_i hg
+    have hc : code = 0 := by
+      have := hg.2.2
+      simpa [consistent] using this
+    cases hs
+    subst hc
+    exact ⟨rfl, { P with sender := afterAttempt cfg b k 0 }, by simp, by simp [afterAttempt]⟩
+  · cases hs
+
 /-- **ok_needs_broker_ack** — an attempt can end without error on the client side only if the broker applied and
 acknowledged exactly that attempt. -/
 theorem ok_needs_broker_ack (cfg : Cfg) (s s' : State) (pw b k : Nat) (hs : step cfg s (.attemptDone pw b k 0) = some s') :
